@@ -22,8 +22,8 @@ import (
 // decision is evaluated under EVERY order (all permutations for n<=3) and compared
 // (a) across orders, (b) with a reference decision procedure written from the property.
 
-var c18Filters = []string{"a/b", "a/+", "a/#", "+/b", "#"}
-var c18Topics = []string{"a", "a/b", "a/b/c", "b"}
+var c18Filters = []string{"a/b", "a/+", "a/#", "+/b", "#", "/a/b"}
+var c18Topics = []string{"a", "a/b", "a/b/c", "b", "/a/b"}
 
 // c18Match: level-wise matching as the property states it. defined=false where the
 // property leaves room ('#' against zero further levels).
@@ -176,7 +176,7 @@ func c18UserACLs(maxN int) []auth.Filters {
 
 func c18GlobalRules() []auth.ACLRule {
 	var out []auth.ACLRule
-	fs := []auth.Filters{nil, {"a/b": auth.ReadWrite}, {"a/+": auth.ReadOnly}, {"a/#": auth.WriteOnly}, {"a/b": auth.Deny}, {"a/b": auth.ReadOnly, "a/#": auth.WriteOnly}, {"#": auth.Deny, "a/b": auth.ReadWrite}}
+	fs := []auth.Filters{nil, {"/a/b": auth.ReadOnly, "a/#": auth.Deny}, {"a/b": auth.ReadWrite}, {"a/+": auth.ReadOnly}, {"a/#": auth.WriteOnly}, {"a/b": auth.Deny}, {"a/b": auth.ReadOnly, "a/#": auth.WriteOnly}, {"#": auth.Deny, "a/b": auth.ReadWrite}}
 	for _, cp := range []string{"", "c1", "c*", "zz"} {
 		for _, f := range fs {
 			out = append(out, auth.ACLRule{Client: auth.RString(cp), Filters: f})
@@ -388,6 +388,6 @@ func init() {
 		explore.RunCases(c, "c18acl", arg, 60*time.Second)
 		explore.RunCases(c, "c18auth", "", 30*time.Second)
 		c.Rep.Set("rule", "every (ledger, client, username, topic, access) of the declared domain is decided under EVERY iteration order of every map involved (all permutations for maps of <=3 entries); evaluations counts single evaluations, non-trivial = decisions that were evaluated under more than one order (ACL) or decided by a user entry/rule (connect)")
-		c.Rep.Assumption("rule filters {a/b,a/+,a/#,+/b,#}, topics {a,a/b,a/b/c,b}; patterns {'',*,c1,c*,zz}; '#' against zero further levels is unspecified (DESIGN §3.2); conflicting overlapping user filters have no reference verdict, only determinism is required")
+		c.Rep.Assumption("rule filters {a/b,a/+,a/#,+/b,#,/a/b}, topics {a,a/b,a/b/c,b,/a/b} (leading empty level included); patterns {'',*,c1,c*,zz}; '#' against zero further levels is unspecified (DESIGN §3.2); conflicting overlapping user filters have no reference verdict, only determinism is required")
 	})
 }
